@@ -1,6 +1,7 @@
 package main
 
 import (
+	"sync"
 	"encoding/json"
 	"fmt"
 	"go/types"
@@ -423,6 +424,73 @@ func factsOrderHandled(fn *ssa.Function, call *ssa.Call) (bool, string) {
 // ---- read-only (no caller-visible write) summaries ----
 
 var roMemo = map[*ssa.Function]int{} // 0 unknown, 1 in progress, 2 read-only, 3 not
+var roMu sync.Mutex
+
+// readOnlyCall: the callee (without contract) writes no caller-visible memory (effect analysis over its SSA, transitive)
+// and cannot hand back freshly built structure (its results are scalars, or it allocates nothing transitively): such a
+// call leaves every heap as it is; only its results are unknown.
+func (x *Exec) readOnlyCall(fn *ssa.Function) bool {
+	roMu.Lock()
+	defer roMu.Unlock()
+	if !readOnlyFn(x, fn) {
+		return false
+	}
+	scalar := true
+	res := fn.Signature.Results()
+	for i := 0; i < res.Len(); i++ {
+		switch u := types.Unalias(res.At(i).Type()).Underlying().(type) {
+		case *types.Basic:
+			_ = u
+		default:
+			scalar = false
+		}
+	}
+	return scalar || allocFree(x, fn, map[*ssa.Function]bool{})
+}
+
+func allocFree(x *Exec, fn *ssa.Function, seen map[*ssa.Function]bool) bool {
+	if o := fn.Origin(); o != nil {
+		fn = o
+	}
+	if seen[fn] {
+		return true
+	}
+	seen[fn] = true
+	if x.isAssumedPure(fn) {
+		return true // results of the listed library packages are opaque values of library types
+	}
+	if fn.Blocks == nil {
+		return false
+	}
+	for _, b := range fn.Blocks {
+		for _, in := range b.Instrs {
+			switch i := in.(type) {
+			case *ssa.Alloc:
+				if i.Heap {
+					return false
+				}
+			case *ssa.MakeMap, *ssa.MakeSlice, *ssa.MakeClosure, *ssa.MakeChan:
+				return false
+			case *ssa.Call:
+				cc := i.Common()
+				if bi, ok := cc.Value.(*ssa.Builtin); ok {
+					if bi.Name() == "append" || bi.Name() == "new" {
+						return false
+					}
+					continue
+				}
+				if cc.IsInvoke() {
+					return false
+				}
+				callee := resolveCallee(cc)
+				if callee == nil || !allocFree(x, callee, seen) {
+					return false
+				}
+			}
+		}
+	}
+	return true
+}
 
 // readOnlyFn: the function (and everything it calls statically) writes only objects it allocated itself.
 // External functions are read-only if their package is declared purepkg or they carry a pure extern contract.
